@@ -33,6 +33,16 @@
      base(Q) = base(P) + the sum of P's sample durations - in every reachable state, for every
      history whose decode times never decrease nor jump by 2^32 ticks or more (the guard is on the
      written units only; c01_base_times_nonvacuous meets it with four finalized parts).
+   - c01_history_accounting: HISTORY-LEVEL ACCOUNTING (refinement to the abstract specification
+     Model/MuxSpec.v - per track a log, the look-ahead unit and "random access seen", globally "the
+     presentation has started"; no segments, parts, rotations or playlists): for every configuration Start
+     accepts, every history of successful writes and every track, the model's log, look-ahead unit and
+     openness are exactly the specification's, which is a fold over the written units. The
+     specification itself loses, duplicates and invents nothing (c01_spec_unit_conservation: one offered
+     unit with a shifted decode time >= 0 extends "log ++ look-ahead" by exactly that unit, older units
+     keep every field but the duration, and the only unit that can disappear is the look-ahead unit of a
+     non-leading track while the presentation has not started; c01_spec_unit_negative: a unit before -10 s
+     changes nothing); c01_accounting_nonvacuous runs it on the example history.
    PARTIAL in one respect, decided on every run by the correspondence run (every decoded sample of
    every published part / segment is compared with the model's, all six codecs) and by the oracle
    over the harness's own write log: that the bytes served for a part / segment decode to the
@@ -40,7 +50,7 @@
    are outside the model). *)
 From Coq Require Import List ZArith Bool.
 From GoHls Require Import Model.Mux Proofs.MuxStream Proofs.MuxLift Proofs.MuxWindow Proofs.MuxHistory
-  Proofs.MuxPlaylist Proofs.MuxSamples Proofs.MuxLog Proofs.MuxLogStep Proofs.MuxLogTS Proofs.MuxPartIds Proofs.MuxChain Proofs.MuxRAStart Proofs.MuxAuditAdds.
+  Proofs.MuxPlaylist Proofs.MuxSamples Proofs.MuxLog Proofs.MuxLogStep Proofs.MuxLogTS Proofs.MuxPartIds Proofs.MuxChain Proofs.MuxRAStart Proofs.MuxAuditAdds Model.MuxSpec Proofs.MuxAccount.
 Import ListNotations.
 Local Open Scope Z_scope.
 
@@ -191,3 +201,41 @@ Theorem c01_write_leaves_other_lookaheads : forall m ti t ra pc smp0 m',
   forall j, j <> ti -> pending m' j = pending m j.
 Proof. exact write_leaves_other_lookaheads. Qed.
 Print Assumptions c01_write_leaves_other_lookaheads.
+
+(* ---- history-level accounting: refinement to the abstract specification Model/MuxSpec.v ---- *)
+Theorem c01_history_accounting : forall c m0 ops,
+  start c = Ok m0 -> c_variant c <> MPEGTS -> all_ok m0 ops ->
+  let T0 := map tk_static (m_tracks m0) in
+  let sp := sp_run T0 (sp_init (length T0)) ops in
+  let m := mux_run m0 ops in
+  forall j, (j < length T0)%nat ->
+    slog m j = sp_log sp j /\ pending m j = sp_pend sp j /\ opened_at m j = sp_open sp.
+Proof. exact history_accounting. Qed.
+Print Assumptions c01_history_accounting.
+
+Theorem c01_spec_unit_conservation : forall cf ld sp ti smp0 x,
+  nth_error (sp_trk sp) ti = Some x -> 0 <= s_dts (sp_incoming cf smp0) ->
+  let sp' := sp_unit cf ld sp ti smp0 in
+  (exists x', nth_error (sp_trk sp') ti = Some x' /\ a_seen x' = a_seen x
+     /\ map core (kept x') = map core (if negb ld && negb (sp_open sp) then a_log x else kept x) ++ [core (sp_incoming cf smp0)]
+     /\ (forall p, a_pend x = Some p -> negb ld && negb (sp_open sp) = false ->
+           a_log x' = a_log x ++ [sp_emit p (s_dts (sp_incoming cf smp0))]))
+  /\ (forall j, j <> ti -> nth_error (sp_trk sp') j = nth_error (sp_trk sp) j).
+Proof. exact spec_unit_conservation. Qed.
+Print Assumptions c01_spec_unit_conservation.
+
+Theorem c01_spec_unit_negative : forall cf ld sp ti smp0,
+  s_dts (sp_incoming cf smp0) < 0 -> sp_unit cf ld sp ti smp0 = sp.
+Proof. exact spec_unit_negative. Qed.
+Print Assumptions c01_spec_unit_negative.
+
+Theorem c01_accounting_nonvacuous : exists m0,
+  start ex_cfg = Ok m0 /\ c_variant ex_cfg <> MPEGTS /\ all_ok m0 ex_ops
+  /\ let T0 := map tk_static (m_tracks m0) in
+     let sp := sp_run T0 (sp_init (length T0)) ex_ops in
+     (length T0 = 2%nat)
+     /\ map (fun s => (s_pay s, s_dts s, s_dur s)) (sp_log sp 0) = [(11, 900000, 3000); (12, 903000, 3000)]
+     /\ option_map s_pay (sp_pend sp 0) = Some 13 /\ sp_log sp 1 = [] /\ option_map s_pay (sp_pend sp 1) = Some 21
+     /\ sp_open sp = true.
+Proof. exact account_example. Qed.
+Print Assumptions c01_accounting_nonvacuous.
